@@ -55,6 +55,10 @@ func NewURL(schema *Schema, su SimpleURL) (*URL, error) {
 			)
 		}
 
+		if !schema.HasType(url.Rel.ToType) {
+			return nil, NewErrUnknownTypeInURL(url.Rel.ToType)
+		}
+
 		url.IsCol = !url.Rel.ToOne
 		url.ResType = url.Rel.ToType
 		url.BelongsToFilter = BelongsToFilter{
